@@ -86,6 +86,11 @@ fn main() {
     // (2) bars()
     let assigns = c12::bar_assignments();
     let mut ev = 0;
+    // Plus the assignments whose last slot carries the 64-bit type encoding (the error path of
+    // bars(): whatever it returns, command and BAR registers must be restored).
+    let mut assigns = assigns;
+    let extra: Vec<[BarKind; 6]> = assigns.iter().filter(|a| matches!(a[5], BarKind::Unimplemented)).map(|a| { let mut b = *a; b[5] = BarKind::Mem64 { size: 0x4000, prefetch: false }; b }).collect();
+    assigns.extend(extra);
     for a in &assigns {
         for cmd in [0u16, 3, 0x407] {
             ev += 1;
